@@ -176,6 +176,23 @@ def handle(case):
                                'reps': [s.nr_of_repetitions for s in u.composite_operations]}
             u2 = u.apply_modifiers()
             out['unrolled_twice'] = {'ops': observe(u2), 'duration': ticks(u2.duration)}
+        if 'flatten' in want:       # C11: flatten of the plain and of the unrolled circuit, twice
+            def flat_obs(circ):
+                f1 = circ.flatten()
+                o1 = {'ops': observe(f1), 'duration': ticks(f1.duration), 'n_comps': len(f1.composite_operations)}
+                f2 = f1.flatten()
+                o1['again'] = {'ops': observe(f2), 'duration': ticks(f2.duration)} == {'ops': o1['ops'], 'duration': o1['duration']}
+                return o1
+            for key, unroll in (('flat_plain', False), ('flat_unrolled', True)):
+                cc = Builder(case).build(case['prog'])
+                if unroll:
+                    cc = cc.apply_modifiers()
+                before = observe(cc)
+                try:
+                    out[key] = flat_obs(cc)
+                    out[key]['before'] = before
+                except RecursionError:
+                    out[key] = {'recursion_error': True, 'before': before}
         if 'copy' in want:          # C05: explicit copy, implicit copy by nesting, independence in both directions
             def wrap(structure):
                 d = DeclarativeCircuit()
